@@ -12,7 +12,7 @@ created by new_acc()). Accumulators are merged in task order, so results are det
 
 from __future__ import print_function
 
-from .. import core
+from .. import core, observe
 
 
 class Block(object):
@@ -44,18 +44,54 @@ _VISIT = None
 _NEWACC = None
 _TIER = None
 
+# Depth phases appended to every task (state carried between constructions, see DESIGN 10.2c):
+REVISIT = 64            # the task's first points are visited again after everything else
+REPEAT = {"quick": 2100, "thorough": 70000}   # the task's first point is visited this many times
+HIST_DEPTH = {"quick": 5, "thorough": 6}      # histories over a 4-letter alphabet, one fresh fork each
+ENTRY_STRIDE = 16       # every 16th point is also judged on an object from another entry point
+
+
+def _via(entry, visit, acc, blk, vec, asg, idx):
+    observe.ENTRY = entry
+    try:
+        visit(acc, blk, vec, asg, idx)
+    finally:
+        observe.ENTRY = "direct"
+    acc["via_" + entry] = acc.get("via_" + entry, 0) + 1
+
+
+def _point(blk, ab, ic):
+    """(vector, assignment) of point (ab, ic) of a block."""
+    A, B, C = blk.A, blk.B, blk.C
+    ia, ib = divmod(ab, len(B))
+    fa, da = A[ia]
+    fb, db = B[ib]
+    fc, dc = C[ic]
+    frags = [f for f in (fa, fb, fc) if f]
+    asg = dict(da)
+    asg.update(db)
+    asg.update(dc)
+    return blk.prefix + "/".join(frags), asg
+
+
+def _stopped(acc, stop_at):
+    return stop_at is not None and any(c.get("input") == stop_at for c in acc.get("bad", []))
+
 
 def _task(t, stop_at=None):
     core.reset_ambient()
     bi, lo, hi = t
     blk = _BLOCKS[bi]
     twin = blk.twin_block() if blk.twin else None
+    warmed = core.maybe_prior(["E1", blk.name, lo, hi])
     acc = _NEWACC()
     acc["_task"] = t
+    acc["prior"] = int(warmed)
     A, B, C = blk.A, blk.B, blk.C
     nB, nC = len(B), len(C)
     prefix = blk.prefix
     visit = _VISIT
+    first = []
     for ab in range(lo, hi):
         ia, ib = divmod(ab, nB)
         fa, da = A[ia]
@@ -76,15 +112,105 @@ def _task(t, stop_at=None):
             else:
                 vec = prefix + head
                 asg = dab
+            if len(first) < REVISIT:
+                first.append((vec, asg, base_idx + ic))
             visit(acc, blk, vec, asg, base_idx + ic)
             if twin is not None:
                 visit(acc, twin, twin.prefix + vec[len(prefix):], asg, base_idx + ic)
-            if stop_at is not None and any(c.get("input") == stop_at for c in acc.get("bad", [])):
+            k = base_idx + ic
+            if k % ENTRY_STRIDE == 5:
+                _via(observe.ENTRIES[(k // ENTRY_STRIDE) % 3], visit, acc, blk, vec, asg, k)
+            if _stopped(acc, stop_at):
                 return acc
+    # depth phase 1: the first points again, now that everything else has been through the library
+    n_main = acc.get("n", 0)
+    for vec, asg, idx in first:
+        visit(acc, blk, vec, asg, idx)
+        if twin is not None:
+            visit(acc, twin, twin.prefix + vec[len(prefix):], asg, idx)
+        if _stopped(acc, stop_at):
+            return acc
+    # ... and, like the last points of the task, through every other entry point
+    last = []
+    for ab in range(max(lo, hi - 2), hi):
+        for ic in sorted(set([0, nC // 2, nC - 1])):
+            vec, asg = _point(blk, ab, ic)
+            last.append((vec, asg, ab * nC + ic))
+    for vec, asg, idx in first[:8] + last:
+        for entry in observe.ENTRIES:
+            _via(entry, visit, acc, blk, vec, asg, idx)
+        if _stopped(acc, stop_at):
+            return acc
+    # depth phase 2: one point many times (only the first task of a block in the thorough tier)
+    if first and not acc.get("bad"):
+        reps = REPEAT.get(_TIER or "quick", REPEAT["quick"])
+        if reps > REPEAT["quick"] and lo != 0:
+            reps = REPEAT["quick"]
+        vec, asg, idx = first[0]
+        for _ in range(reps):
+            visit(acc, blk, vec, asg, idx)
+            if acc.get("bad"):
+                break
+    acc["depth_visits"] = acc.get("n", 0) - n_main
     for c in acc.get("bad", []):
         c.setdefault("task", [blk.name, lo, hi])
         c.setdefault("tier", _TIER)
     return acc
+
+
+def _letters(blk):
+    """Four points of a block that collide as much as a block allows: its first point, the same
+    body under the twin prefix (else the neighbouring point), the middle and the last point."""
+    nAB, nC = len(blk.A) * len(blk.B), len(blk.C)
+    out = [(0, 0, 0)]
+    if blk.twin:
+        out.append((0, 0, 1))
+    elif nC > 1:
+        out.append((0, 1, 0))
+    elif nAB > 1:
+        out.append((1, 0, 0))
+    out.append((nAB // 2, nC // 2, 0))
+    out.append((nAB - 1, nC - 1, 0))
+    return out
+
+
+def _hist_task(item, stop_at=None):
+    """One history from the initial state (fresh fork): the letters of `seq` visited in order."""
+    core.reset_ambient()
+    bi, seq = item
+    blk = _BLOCKS[bi]
+    twin = blk.twin_block() if blk.twin else None
+    letters = _letters(blk)
+    acc = _NEWACC()
+    acc["_task"] = (bi, -1, -1)
+    for k in seq:
+        ab, ic, tw = letters[k]
+        vec, asg = _point(blk, ab, ic)
+        if tw:
+            _VISIT(acc, twin, twin.prefix + vec[len(blk.prefix):], asg, ab * len(blk.C) + ic)
+        else:
+            _VISIT(acc, blk, vec, asg, ab * len(blk.C) + ic)
+        if acc.get("bad"):
+            break
+    for c in acc.get("bad", []):
+        c.setdefault("task", {"history": [blk.name, list(seq)]})
+        c.setdefault("tier", _TIER)
+    return acc
+
+
+def _history_items(blocks, tier):
+    import itertools
+    depth = HIST_DEPTH.get(tier or "quick", HIST_DEPTH["quick"])
+    seen, items = set(), []
+    for bi, b in enumerate(blocks):
+        if b.family in seen or not b.A:
+            continue
+        seen.add(b.family)
+        k = len(_letters(b))
+        for seq in itertools.product(range(k), repeat=depth):
+            if len(set(seq)) > 1 or seq[0] == 0:
+                items.append((bi, seq))
+    return items, depth
 
 
 def run(ctx, blocks, visit, new_acc, tasks_per_block=None):
@@ -108,7 +234,29 @@ def run(ctx, blocks, visit, new_acc, tasks_per_block=None):
     accs = [None] * len(tasks)
     for i, a in zip(order, out):
         accs[i] = a
-    return accs
+    items, depth = _history_items(blocks, ctx.tier)
+    haccs = core.pool_map(_hist_task, items, fresh=True)
+    prev = getattr(ctx, "depth_stats", None) or {}
+    ctx.depth_stats = {
+        "revisited_points_per_task": REVISIT,
+        "repetitions_of_first_point_per_task": REPEAT["quick"],
+        "repetitions_first_task_of_each_block": REPEAT.get(ctx.tier, REPEAT["quick"]),
+        "depth_phase_visits": sum(a.get("depth_visits", 0) for a in accs),
+        "histories_from_fresh_process": len(items),
+        "history_depth": depth,
+        "history_alphabet": "first point, its twin-prefix copy (or neighbour), middle and last point of the first block of each family",
+        "history_visits": sum(a.get("n", 0) for a in haccs),
+        "tasks_run_after_the_prior_history": sum(a.get("prior", 0) for a in accs),
+        "tasks": len(accs),
+        "points_also_judged_via_from_rh_vector": sum(a.get("via_rh", 0) for a in accs),
+        "points_also_judged_via_parse_cvss_from_text": sum(a.get("via_text", 0) for a in accs),
+        "points_also_judged_after_hash_and_compare": sum(a.get("via_hashed", 0) for a in accs),
+    }
+    for k in ("depth_phase_visits", "histories_from_fresh_process", "history_visits",
+              "tasks_run_after_the_prior_history", "tasks", "points_also_judged_via_from_rh_vector",
+              "points_also_judged_via_parse_cvss_from_text", "points_also_judged_after_hash_and_compare"):
+        ctx.depth_stats[k] += prev.get(k, 0)
+    return accs + list(haccs)
 
 
 def run_single_task(blocks, visit, new_acc, name, lo, hi, tier=None):
@@ -136,6 +284,16 @@ def replay_task(blocks, visit, new_acc, case):
         if b.prefix is None:
             b.prefix = tables.PREFIX[b.family]
     _BLOCKS, _VISIT, _NEWACC, _TIER = blocks, visit, new_acc, case.get("tier")
+    if isinstance(case["task"], dict):
+        name, seq = case["task"]["history"]
+        for bi, b in enumerate(blocks):
+            if b.name == name:
+                acc = _hist_task((bi, seq))
+                hit = [c for c in acc.get("bad", []) if c.get("input") == case["input"]]
+                if hit:
+                    return True, hit[0].get("what", "")
+                return False, "history %r of block %s no longer fails on %r" % (seq, name, case["input"])
+        raise core.HarnessError("block %r not found for history replay" % name)
     name, lo, hi = case["task"]
     for bi, b in enumerate(blocks):
         if b.name == name:
